@@ -18,6 +18,8 @@ Deciding step: complete enumeration of declared finite products on the real impo
 * V  full product of the documented skip reasons (service, stops, operating flag,
      equipment code, end-of-file marker, unknown origin / destination, implausible
      distance);
+* Et/Ed (thorough only) the clock axes (11 departures x 12 arrivals) on the DST-change ranges
+     and the calendar axes (16 ranges x 9 weekday sets) at full resolution;
 * M  "same object" histories: every sequence of up to 3 rows from a 7-row alphabet added
      to ONE database (shared airport cache, line-keyed warnings, flight ids), also through
      the file converter.
@@ -59,12 +61,16 @@ ASSUMPTIONS = [
     'a local time inside a DST gap or fold has no unique correct instant: either of the two stdlib '
     'interpretations (fold=0 / fold=1) is accepted, also for the arrival-before-departure decision',
     'distance rule as documented: airports < 1 km apart refused; stated distance implausible when it differs '
-    'by > 50 km AND > 10 % from the WGS-84 geodesic; stated 0 = not stated; lattice values closer than 1 m to a '
-    'decision boundary are not generated (none occur)',
+    'by > 50 km AND > 10 % from the WGS-84 geodesic; stated 0 = not stated; lattice values closer than 10 cm to a '
+    'decision boundary are not generated (none occur; reference Vincenty agrees with pyproj to 5e-8 km on all pairs)',
     'a range whose explicit dates lie outside the data year is expanded as written; a reversed range has no instances',
     'schedules.day is compared with the UTC day number of the departure instant (documented in the importer as '
     '"day number since Unix epoch"), reported under its own kind',
     'hours 00-23 / minutes 00-59 only; malformed rows (non-numeric fields) are outside the quantifier',
+    'third-party timezonefinder.TimezoneFinder construction is memoised per worker process (40 ms of file reads per '
+    'database object otherwise); the importer still performs its own lazy construction call and every lookup',
+    'convert_oag_data raising ZeroDivisionError inside report() when no row was imported (database already complete) '
+    'is outside the property text: recorded as outcome class report-crash, not as a violation',
 ]
 
 BOUNDARY_MARGIN_KM = 1e-4
@@ -129,6 +135,9 @@ PAIRS_T = PAIRS_Q + [
     ['UPK', 'QMK'],  # Greenland: DST switches on Saturday 22:00 local
     ['KIV', 'ETH'],  # Moldova (switch at 02:00/03:00 local), Israel (switch on Friday)
     ['DCG', 'LHR'], ['SXF', 'TXL'], ['FRU', 'DCG'],
+    # the same unusual zones paired with an airport west of 90 W (importable even while the
+    # distance-check finding is open, so their DST rules stay exercised)
+    ['UPK', 'LAX'], ['KIV', 'LAX'], ['LAX', 'ETH'], ['ORD', 'DEN'],
 ]  # fmt: skip
 
 RANGES_Q = [
